@@ -16,6 +16,7 @@ ASSUMPTIONS = ["targets created inside a routine are observable from their first
 TIERS = {"quick": {"runs": 70}, "thorough": {"runs": 1500}}
 REQUIRED = ["soft_updates_checked", "hard_updates_checked", "tau_0", "tau_1", "online_unchanged_by_target_update"]
 REQUIRED_QUICK = ["soft_updates_checked", "hard_updates_checked"]
+CHUNK = 24  # TrainSim plans per fresh worker process
 SHRINK_LISTS = [["env", "script"]]
 SHRINK_INTS = []
 CLAUSES = ["C06"]
